@@ -50,6 +50,7 @@ func (vm *VM) schedPoint(what string) {
 		return
 	}
 	P.interposeBudget--
+	vm.tickProgress()
 	P.interposedAt = append(P.interposedAt, what+" @ "+vm.where())
 	savedHeld := P.heldOrder
 	savedCur, savedDepth := vm.cur, vm.depth
@@ -240,6 +241,7 @@ func (vm *VM) newTid() int {
 
 // stepCoro runs (or resumes) co until it finishes or parks.  Returns true when it finished.
 func (vm *VM) stepCoro(co *coro) (finished bool) {
+	vm.tickProgress() // another thread runs: whatever it does counts as progress of a watched loop
 	P := vm.P
 	sCur, sDepth, sStack, sThread, sHeld, sCo := vm.cur, vm.depth, vm.panicStack, P.curThread, P.heldOrder, vm.co
 	restore := func() {
